@@ -43,6 +43,7 @@ type Case struct {
 	Part    string       `json:"part"` // store | extract
 	Store   *StoreCase   `json:"store,omitempty"`
 	Extract *ExtractCase `json:"extract,omitempty"`
+	Rename  *RenameCase  `json:"rename,omitempty"` // part "renamefail" (renamefail_test.go)
 }
 
 // ---------------------------------------------------------------- dry runs
@@ -486,6 +487,9 @@ func run(c Case) hx.Outcome {
 	if c.Part == "extract" && c.Extract != nil {
 		return runExtract(*c.Extract)
 	}
+	if c.Part == "renamefail" && c.Rename != nil {
+		return runRename(*c.Rename)
+	}
 	if c.Store == nil {
 		c.Store = &StoreCase{}
 	}
@@ -577,6 +581,22 @@ func genExtract(t *rapid.T) *ExtractCase {
 	c.K = rapid.IntRange(1, np+1).Draw(t, "k")
 	c.Inplace = rapid.Bool().Draw(t, "inplace")
 	c.Digest = rapid.SampledFrom([]string{"", "", "sha256"}).Draw(t, "digest")
+	for i, ns := 0, rapid.SampledFrom([]int{0, 0, 0, 1, 1, 2}).Draw(t, "nseeds"); i < ns; i++ {
+		sp := SeedSpec{Dir: rapid.IntRange(0, 2).Draw(t, "seeddir?") == 0}
+		unrelated := rapid.IntRange(0, 3).Draw(t, "unrelated?") == 0
+		bits := rapid.Uint64().Draw(t, "seedbits")
+		for j, l := range c.Layout { // an older version: some positions as in the blob, some different, one inserted
+			if unrelated || bits>>(uint(j)%60)&1 == 1 {
+				sp.Layout = append(sp.Layout, -(1 + j + 16*i))
+			} else {
+				sp.Layout = append(sp.Layout, l)
+			}
+			if bits>>61&1 == 1 && j == len(c.Layout)/2 {
+				sp.Layout = append(sp.Layout, -(100 + i))
+			}
+		}
+		c.Seeds = append(c.Seeds, sp)
+	}
 	c.NameLen = rapid.SampledFrom([]int{0, 0, 0, 0, 0, 0, 200, 243, 244, 250, 255}).Draw(t, "namelen")
 	if rapid.IntRange(0, 5).Draw(t, "deep?") == 0 {
 		c.DirDepth = rapid.SampledFrom([]int{1, 12, 20}).Draw(t, "depth")
@@ -614,7 +634,7 @@ var spec = &hx.Spec[Case]{
 	Level: "fault_enumeration",
 	Rule: "store cases = (1..4 chunks, compressed or not, 1 pinned writer or 2..4 concurrent writers incl. the same chunk from several, optional pre-existing chunk/prefix directory, " +
 		"crash point = SIGKILL at the entry of the c-th mkdirat/openat/write/close/renameat/unlinkat of the writer thread (strace inject), or RLIMIT_FSIZE=b with and without a kill at the write that follows the cut one); " +
-		"extract cases = (1..10 chunk positions over 1..7 distinct chunks, -n 1..4, with/without -k, digest sha512-256 or sha256 (index, store objects and --digest), destination name blob or 200/243/244/250/255 bytes long (from 244 on a temporary .<name>.<random> has no room) optionally 1..20 directories of 100 bytes deep, prior destination absent/empty/garbage/partly right/complete, SIGKILL while the k-th chunk request is held, or a 404 on it, or (-k) SIGINT/SIGTERM while it is held and the request answered afterwards, " +
+		"extract cases = (1..10 chunk positions over 1..7 distinct chunks, -n 1..4, with/without -k, digest sha512-256 or sha256 (index, store objects and --digest), destination name blob or 200/243/244/250/255 bytes long (from 244 on a temporary .<name>.<random> has no room) optionally 1..20 directories of 100 bytes deep, 0..2 seeds (older version sharing some chunks, or unrelated; --seed idx:blob or --seed-dir), prior destination absent/empty/garbage/partly right/complete, SIGKILL while the k-th chunk request is held, or a 404 on it, or (-k) SIGINT/SIGTERM while it is held and the request answered afterwards, " +
 		"or the whole extract under strace -f with all requests answered and the c-th (per thread) open*/truncate/unlink*/rename*/link*/chmod* call killed at its entry or failed with EIO/EXDEV/ENOSPC/EACCES: " +
 		"oracle for non -k = destination byte- and inode-identical to before, or the complete blob once a rename/link onto it was seen to return 0; for -k the re-run oracle: completes with the right bytes and requests no chunk that the file left behind holds at all its positions, nor - one worker - any chunk that lies entirely in front of the k-th requested one). " +
 		"non-trivial = the store child died while a temporary created by StoreChunk existed and was not yet renamed (seen in the strace log) or a write was cut at 0 < b < stored length; " +
@@ -626,15 +646,18 @@ var spec = &hx.Spec[Case]{
 		"leftovers are looked for in the store, in the child's TMPDIR and in its working directory",
 		"extract: death is SIGKILL while the harness' HTTP server holds a chunk request, plus self-inflicted death on a 404; SIGINT/SIGTERM belong to C07",
 		"-n 1: the single worker takes the index in order and requests a chunk only after everything in front of it was written (pwrite returned), so the chunks in front of the k-th requested one count as written by the stopped run whatever is found afterwards",
+		"under strace a successful open(O_CREAT) of an absent destination, or open(O_TRUNC)/truncate/unlink/rename-away of an existing one, before any rename onto it counts as a violation of the non -k clause even when this run was not killed there: a SIGKILL right behind that call leaves exactly that state",
 		"long destination names: a run that refuses the name (non-zero exit, 'file name too long') counts as a death like any other - the destination must be as before; success is not demanded",
 		"extract under strace: when= counts per thread and the Go runtime places the work freely, so (syscall, c) = the first thread reaching its c-th call; c runs to the process-wide total of the dry run; the call really hit is read from the log. Only directory-visible calls are crash points there (data writes are covered by the request-held kills)",
 	},
 	Required: []string{"store:single-writer", "store:multi-writer", "store:compressed", "store:uncompressed", "store:killed-with-temp-present", "store:multi-killed-with-temp-present",
 		"store:write-cut-short", "store:write-cut-short+killed", "store:fsize=0", "store:leftover-pruned", "store:same-chunk-twice", "store:overwrites-existing-chunk", "store:not-killed",
+		"store:rename-fails-enoent", "store:rename-fails-enoent+killed-later", "store:rename-fails-enoent+not-killed", "store:concurrent-prune",
 		"store:killed-at=mkdirat", "store:killed-at=openat", "store:killed-at=write", "store:killed-at=close", "store:killed-at=renameat", "store:killed-at=unlinkat",
 		"extract:inplace-died-midway", "extract:tmpfile-died-midway", "extract:prior=absent", "extract:prior=partial", "extract:prior=garbage", "extract:n>1", "extract:death=kill", "extract:death=err",
 		"extract:rerun-with-some-present", "extract:digest=sha256", "extract:digest=sha256:inplace-rerun",
 		"extract:inplace:new-path:err-midway:rerun", "extract:death=sigint", "extract:death=sigterm", "extract:stopped-by-signal", "extract:rerun-after-known-writes",
+		"extract:seed", "extract:seed-dir", "extract:seed:used", "extract:seed:dest-absent:no-k", "extract:seed:inplace-rerun",
 		"extract:dest-name>=244", "extract:dest-name>=244:prior-exists", "extract:dest-name=243", "extract:deep-dir",
 		"extract:death=strace-kill", "extract:death=strace-err", "extract:final-phase-kill", "extract:killed-at-rename", "extract:rename-failed", "extract:inplace-syscall-death"},
 	Gen: genCase,
@@ -857,7 +880,14 @@ func enumFinalConfigs() (bases []ExtractCase) {
 		add(0, 1, false, []string{"absent", "garbage", "partial"}[v[2]])
 		bases[len(bases)-1].NameLen, bases[len(bases)-1].DirDepth = v[0], v[1]
 	}
+	// with seeds (see enumSeeds)
+	add(0, 1, false, "absent")
+	bases[len(bases)-1].Seeds = enumSeedSets(0)[0]
+	add(1, 3, false, "absent")
+	bases[len(bases)-1].Seeds = enumSeedSets(1)[1]
 	if hx.Thorough() {
+		add(0, 1, true, "absent")
+		bases[len(bases)-1].Seeds = enumSeedSets(0)[1]
 		add(0, 3, true, "absent")
 		add(1, 1, true, "partial")
 		add(1, 2, true, "garbage")
@@ -947,6 +977,38 @@ func enumStops() (cases []Case) {
 	return cases
 }
 
+// enumSeedSets: seeds for layout li: an older version through --seed; an unrelated file through --seed-dir plus an older version.
+func enumSeedSets(li int) [][]SeedSpec {
+	if li == 0 {
+		return [][]SeedSpec{{{Layout: []int{0, -1, 2, -2}}}, {{Layout: []int{-3, -4}, Dir: true}, {Layout: []int{-5, 1, 2, 3}}}}
+	}
+	return [][]SeedSpec{{{Layout: []int{0, -1, 2, 0, -2, 4, 1}}}, {{Layout: []int{-3, -4, -5}, Dir: true}, {Layout: []int{-6, 1, 2, 0, 3}, Dir: true}}}
+}
+
+// enumSeeds: every request index with seeds, with and without -k.
+func enumSeeds() (cases []Case) {
+	for li, l := range enumLayouts() {
+		for si, seeds := range enumSeedSets(li) {
+			for _, v := range []struct {
+				inplace bool
+				prior   string
+				death   string
+				n       int
+			}{{false, "absent", "kill", 1}, {false, "absent", "err", 1}, {false, "absent", "kill", 3}, {false, "garbage", "kill", 1},
+				{true, "absent", "kill", 1}, {true, "absent", "err", 1}, {true, "partial", "kill", 3}, {true, "absent", "sigint", 1}} {
+				if !hx.Thorough() && (si == 1 && (v.n == 3 || v.death != "kill" || v.prior == "garbage") || li == 1 && si == 0 && v.n == 3) {
+					continue
+				}
+				for k := 1; k <= len(l.layout)+1; k++ {
+					cases = append(cases, Case{Part: "extract", Extract: &ExtractCase{Chunks: l.chunks, Layout: l.layout, N: v.n, K: k, Inplace: v.inplace, Death: v.death, Prior: v.prior,
+						PriorSeed: uint64(0x5a5a5a5a5a5a5a5a) >> uint(li), PriorLen: 1234, Seeds: seeds}})
+				}
+			}
+		}
+	}
+	return cases
+}
+
 func enumExtract() (cases []Case) {
 	layouts := enumLayouts()
 	ns := hx.Pick([]int{1, 3}, []int{1, 2, 3, 4})
@@ -1005,7 +1067,7 @@ func TestEnum(t *testing.T) {
 	if t.Failed() {
 		return
 	}
-	ex := append(append(enumExtract(), enumNames()...), enumStops()...)
+	ex := append(append(append(enumExtract(), enumNames()...), enumStops()...), enumSeeds()...)
 	var my []Case
 	for _, c := range ex {
 		if mine() {
@@ -1017,7 +1079,7 @@ func TestEnum(t *testing.T) {
 		return
 	}
 	hx.AddNote("enumerated_extract_kill_points", len(my))
-	hx.Exhaustive("extract: every request index k for two fixed layouts x listed (n, -k, prior, death) grid, + digest sha256 for the -k kills; + destination names of 200/243/244/250/255 bytes (also 15..20 directories deep) x every k for the first layout; + -k to a new path (absent/empty), n=1, 404 or SIGINT or SIGTERM at every k")
+	hx.Exhaustive("extract: every request index k for two fixed layouts x listed (n, -k, prior, death) grid, + digest sha256 for the -k kills; + destination names of 200/243/244/250/255 bytes (also 15..20 directories deep) x every k for the first layout; + -k to a new path (absent/empty), n=1, 404 or SIGINT or SIGTERM at every k; + two seed sets per layout (older version via --seed; unrelated + older via --seed-dir/--seed) x every k, with and without -k")
 	for i, base := range enumFinalConfigs() {
 		if !mine() {
 			continue
@@ -1028,7 +1090,7 @@ func TestEnum(t *testing.T) {
 			return
 		}
 		hx.AddNote("enumerated_extract_syscall_points", points)
-		hx.Exhaustive(fmt.Sprintf("extract under strace, content %d (%d positions, n=%d, -k=%v, prior %s, name_len %d, dir_depth %d): SIGKILL at every (directory-visible syscall, c<=process total of the dry run) + injected error at every rename*/link*/unlink*/truncate call",
-			i, len(base.Layout), base.N, base.Inplace, base.Prior, base.NameLen, base.DirDepth))
+		hx.Exhaustive(fmt.Sprintf("extract under strace, content %d (%d positions, n=%d, -k=%v, prior %s, name_len %d, dir_depth %d, %d seeds): SIGKILL at every (directory-visible syscall, c<=process total of the dry run) + injected error at every rename*/link*/unlink*/truncate call",
+			i, len(base.Layout), base.N, base.Inplace, base.Prior, base.NameLen, base.DirDepth, len(base.Seeds)))
 	}
 }
